@@ -39,7 +39,7 @@ func EdgeFact(from, to *ssa.BasicBlock) (Fact, bool) {
 func enteringPreds(b *ssa.BasicBlock) []*ssa.BasicBlock {
 	var out []*ssa.BasicBlock
 	for _, p := range b.Preds {
-		if !b.Dominates(p) {
+		if !Dominates(b, p) {
 			out = append(out, p)
 		}
 	}
@@ -51,7 +51,7 @@ func enteringPreds(b *ssa.BasicBlock) []*ssa.BasicBlock {
 // the conditions known to hold whenever control is in b.
 func FactsAt(b *ssa.BasicBlock) []Fact {
 	var out []Fact
-	for d := b; d != nil; d = d.Idom() {
+	for d := b; d != nil; d = Idom(d) {
 		ps := enteringPreds(d)
 		if len(ps) != 1 {
 			continue
@@ -83,7 +83,7 @@ func InstrDominates(a, b ssa.Instruction) bool {
 	if ba == bb {
 		return instrIndex(a) < instrIndex(b)
 	}
-	return ba.Dominates(bb)
+	return Dominates(ba, bb)
 }
 
 func instrIndex(i ssa.Instruction) int {
